@@ -580,7 +580,12 @@ pub fn apply_coercion(
 
         // Find the style of just the pattern part in the container
         if let Some(pos) = container_lower.find(&old_pattern_lower) {
-            let pattern_part = &container_without_prefix[pos..pos + old_pattern.len()];
+            // `pos` was found in the lower-cased copy; Unicode lower-casing can change byte
+            // lengths (U+212A KELVIN SIGN -> 'k'), so the offsets need not fit the original
+            let Some(pattern_part) = container_without_prefix.get(pos..pos + old_pattern.len())
+            else {
+                return None;
+            };
             let pattern_style = detect_style(pattern_part);
 
             // Don't coerce if the pattern part has mixed/unknown style
